@@ -128,7 +128,7 @@ public:
 
     template<typename U=T>
     FASTOR_INLINE SIMDVector<U,simd_abi_type> eval(FASTOR_INDEX i, FASTOR_INDEX k) const {
-        i += k;
+        i = i*it_expr.dimension(DIMS-1) + k;
         SIMDVector<U,simd_abi_type> _vec;
         std::array<int,SIMDVector<T,simd_abi_type>::Size> inds;
         for (FASTOR_INDEX j=0; j<SIMDVector<T,simd_abi_type>::Size; ++j)
@@ -139,12 +139,12 @@ public:
 
     template<typename U=T>
     constexpr FASTOR_INLINE U eval_s(FASTOR_INDEX i, FASTOR_INDEX j) const {
-        return _expr.data()[it_expr.data()[i+j]];
+        return _expr.data()[it_expr.data()[i*it_expr.dimension(DIMS-1)+j]];
     }
 
     template<typename U=T>
     FASTOR_INLINE SIMDVector<U,simd_abi_type> teval(const std::array<int,DIMS>& as) const {
-        int i = std::accumulate(as.begin(), as.end(), 0);
+        int i = it_expr.get_flat_index(as);
         SIMDVector<U,simd_abi_type> _vec;
         std::array<int,SIMDVector<T,simd_abi_type>::Size> inds;
         for (FASTOR_INDEX j=0; j<SIMDVector<T,simd_abi_type>::Size; ++j)
@@ -155,7 +155,7 @@ public:
 
     template<typename U=T>
     FASTOR_INLINE U teval_s(const std::array<int,DIMS>& as) const {
-        int i = std::accumulate(as.begin(), as.end(), 0);
+        int i = it_expr.get_flat_index(as);
         return _expr.data()[it_expr.data()[i]];
     }
 
@@ -1111,7 +1111,7 @@ public:
 
     template<typename U=T>
     FASTOR_INLINE SIMDVector<U,simd_abi_type> eval(FASTOR_INDEX i, FASTOR_INDEX k) const {
-        i += k;
+        i = i*it_expr.dimension(DIMS-1) + k;
         SIMDVector<U,simd_abi_type> _vec;
         std::array<int,SIMDVector<T,simd_abi_type>::Size> inds;
         for (FASTOR_INDEX j=0; j<SIMDVector<T,simd_abi_type>::Size; ++j)
@@ -1122,12 +1122,12 @@ public:
 
     template<typename U=T>
     constexpr FASTOR_INLINE U eval_s(FASTOR_INDEX i, FASTOR_INDEX j) const {
-        return _expr.data()[it_expr.data()[i+j]];
+        return _expr.data()[it_expr.data()[i*it_expr.dimension(DIMS-1)+j]];
     }
 
     template<typename U=T>
     FASTOR_INLINE SIMDVector<U,simd_abi_type> teval(const std::array<int,DIMS>& as) const {
-        int i = std::accumulate(as.begin(), as.end(), 0);
+        int i = it_expr.get_flat_index(as);
         SIMDVector<U,simd_abi_type> _vec;
         std::array<int,SIMDVector<T,simd_abi_type>::Size> inds;
         for (FASTOR_INDEX j=0; j<SIMDVector<T,simd_abi_type>::Size; ++j)
@@ -1138,7 +1138,7 @@ public:
 
     template<typename U=T>
     FASTOR_INLINE U teval_s(const std::array<int,DIMS>& as) const {
-        int i = std::accumulate(as.begin(), as.end(), 0);
+        int i = it_expr.get_flat_index(as);
         return _expr.data()[it_expr.data()[i]];
     }
 };
